@@ -95,11 +95,12 @@ Record objs := mkObjs {
   tnames : list (nat * tid);
   snames : list (nat * scid);
   trace : list (list Z);
-  serial : nat
+  serial : nat;
+  closing : nat       (* number of coroutines currently being closed ([coroutine.close()] contexts on the call stack) *)
 }.
 #[export] Instance eta_objs : Settable _ :=
   settable! mkObjs <kern; sigs; astat; notifs; flags; tracked; tasks; scopes; locks; queues; chans; ress;
-                    tnames; snames; trace; serial>.
+                    tnames; snames; trace; serial; closing>.
 #[export] Instance eta_notif : Settable _ := settable! Build_notif <nk; waiting; trig>.
 #[export] Instance eta_flag : Settable _ := settable! Build_flagrec <fval; fnid; finv>.
 #[export] Instance eta_track : Settable _ := settable! Build_trackrec <tval; tlisteners>.
@@ -175,6 +176,7 @@ Definition add_acts (m : mstate) (sp : list (aid * prog)) : mstate :=
             sp m.
 
 Definition set_kern (o : objs) (k : loop) : objs := o <| kern := k |>.
+Definition set_closing (m : mstate) (n : nat) : mstate := m <| ob := (ob m) <| closing := n |> |>.
 
 Definition set_gen (m : mstate) (g : nat) (s : gstate) : mstate := m <| gens := list_upd (gens m) g s |>.
 
@@ -207,6 +209,7 @@ Definition finish_ctx (m : mstate) (c : ctx) (outer : list ctx) (r : val + exn) 
       | inr e => SDone (m <| result := RRaised e |>)
       end
   | c' :: outer' =>
+      let m := set_closing m (pred (closing (ob m))) in
       match r with
       | inl _ => SCont m (MRet VU) c' outer'
       | inr EGenExit => SCont m (MRet VU) c' outer'
@@ -238,7 +241,7 @@ Definition step1 (cur : aid) (m : mstate) (md : mode) (c : ctx) (outer : list ct
           | [] => SDone (set_act m a (ASusp st))
           | c' :: outer' =>
               (* a coroutine that yields while being closed: "coroutine ignored GeneratorExit" *)
-              SCont (set_act m a (ASusp st)) (MThrow (ERuntime 1)) c' outer'
+              SCont (set_closing (set_act m a (ASusp st)) (pred (closing (ob m)))) (MThrow (ERuntime 1)) c' outer'
           end
       | Bind p k => SCont m (MRun p) (withst (FBind k :: st)) outer
       | Catch p h => SCont m (MRun p) (withst (FCatch h :: st)) outer
@@ -247,7 +250,8 @@ Definition step1 (cur : aid) (m : mstate) (md : mode) (c : ctx) (outer : list ct
           match nth_error (acts m) b with
           | Some (ANew _) => SCont (set_act m b ADead) (MRet VU) c outer
           | Some (ASusp st') =>
-              SCont (set_act m b ARun) (MThrow EGenExit) {| c_aid := b; c_stack := st' |} (c :: outer)
+              SCont (set_closing (set_act m b ARun) (S (closing (ob m)))) (MThrow EGenExit)
+                    {| c_aid := b; c_stack := st' |} (c :: outer)
           | Some ARun => SCont m (MThrow (ERuntime 2)) c outer
           | _ => SCont m (MRet VU) c outer
           end
